@@ -64,6 +64,8 @@ def run(ck, prop, stream, families_note, variants=None, judge=None, theorems=Non
             okd, _ = ck.lake_build(["driver"])
         elif mods:
             ck.audit(mods)
+            if ck.tier == "thorough":
+                ck.leanchecker(mods)
         okh, outh = ck.build_harness()
         if not okh:
             ck.broken.append("go build -tags verif of the harness against /repo failed: " + outh[-800:])
